@@ -1,4 +1,5 @@
 import Mathlib.Algebra.BigOperators.Intervals
+import Mathlib.Algebra.BigOperators.Field
 import TapkeeVerif.Proofs.TsneCsrVal
 /-!
 C17, CSR symmetriser, part 7: the total mass is preserved (sum of the half sums over all `(n, m)`).
@@ -63,5 +64,114 @@ theorem total_entries (N : Nat) (c : Csr K) (h : WFc N c) :
   apply row_sum_entries
   intro i hi
   exact h.cols i (inRow_lt_size N c h hn ((mem_rowRange c n i).1 hi))
+
+/-! ### part 2: the result is a well-formed CSR matrix, its total, normalisation -/
+
+/-- rows and columns of the emitted triples are row indices -/
+theorem emit_bounds (N : Nat) (c : Csr K) (h : WFc N c) {e : Nat × Nat} (he : e ∈ csrEntries N c) :
+    ∀ x ∈ emit c e, x.1 < N ∧ x.2.1 < N := by
+  have h1 : e.1 < N := ((mem_entries N c e).1 he).1
+  have h2 : c.C e.2 < N := entry_col_lt N c h he
+  intro x hx
+  unfold emit at hx
+  split at hx
+  · simp only [List.mem_cons, List.not_mem_nil, or_false] at hx
+    rcases hx with rfl | rfl <;> exact ⟨by assumption, by assumption⟩
+  · split_ifs at hx with ha hb
+    · simp only [List.mem_cons, List.not_mem_nil, or_false] at hx
+      subst hx; exact ⟨h1, h1⟩
+    · simp only [List.mem_cons, List.not_mem_nil, or_false] at hx
+      rcases hx with rfl | rfl <;> exact ⟨by assumption, by assumption⟩
+    · simp at hx
+
+theorem rowList_col_lt (N : Nat) (c : Csr K) (h : WFc N c) (r : Nat) (y : Nat × K)
+    (hy : y ∈ rowList (emissions N c) r) : y.1 < N := by
+  unfold rowList emissions at hy
+  simp only [List.mem_map, List.mem_filter, List.mem_flatMap, decide_eq_true_eq] at hy
+  obtain ⟨x, ⟨⟨e, he, hx⟩, -⟩, rfl⟩ := hy
+  exact (emit_bounds N c h he x hx).2
+
+/-- the result of the symmetriser is a well-formed CSR matrix -/
+theorem wfc_out (N : Nat) (c : Csr K) (hw : c.wellFormed N = true) (hd : DistinctCols N c) (out : Csr K)
+    (hout : symmetrizeCsr N c = .ok out) : WFc N out := by
+  obtain ⟨out', hout', hR, hcells, hs1, hs2⟩ := symmetrizeCsr_ok N c hw hd
+  rw [hout] at hout'
+  injection hout' with he
+  subst he
+  have h := wfc_of_wellFormed N c hw
+  refine ⟨?_, ?_, ?_, ?_, ?_⟩
+  · rw [hR 0 (by omega)]; rfl
+  · intro n hn
+    rw [hR n (by omega), hR (n + 1) (by omega), symRowOf_succ]; omega
+  · rw [hR N (Nat.le_refl _), hs1]
+  · rw [hs1, hs2]
+  · intro i hi
+    rw [hs1] at hi
+    obtain ⟨r, hr, j, hj, rfl⟩ := slot_cover (rcOf N c) N i hi
+    obtain ⟨y, hy, hC, -⟩ := hcells r hr j hj
+    rw [hC]
+    exact rowList_col_lt N c h r y (List.mem_of_getElem? hy)
+
+theorem array_foldl_sum (a : Array K) :
+    a.foldl (· + ·) 0 = ((List.range a.size).map fun i => a.getD i 0).sum := by
+  have : (List.range a.size).map (fun i => a.getD i 0) = a.toList := by
+    apply List.ext_getElem
+    · simp
+    · intro i h1 h2
+      simp only [List.length_map, List.length_range] at h1
+      simp [Array.getD, h1]
+  rw [this, ← Array.foldl_toList, List.sum_eq_foldl]
+
+/-- **the total of the result**: `Σ sym_val_P = (Σ val_P + Σ val_P) / 2` -/
+theorem out_total (N : Nat) (c : Csr K) (hw : c.wellFormed N = true) (hd : DistinctCols N c) (out : Csr K)
+    (hout : symmetrizeCsr N c = .ok out) :
+    out.valP.foldl (· + ·) 0 =
+      (c.valP.foldl (· + ·) 0 + c.valP.foldl (· + ·) 0) / ((Gen.TsneOps.symDivisor : Nat) : K) := by
+  have hc := wfc_of_wellFormed N c hw
+  have ho := wfc_out N c hw hd out hout
+  rw [array_foldl_sum, array_foldl_sum, ← ho.vals, ← hc.vals]
+  have e1 := total_entries N out ho
+  have e2 := total_entries N c hc
+  unfold Csr.V at e1 e2
+  rw [e1, e2]
+  have : ∑ n ∈ Finset.range N, ∑ m ∈ Finset.range N, out.entry n m =
+      ∑ n ∈ Finset.range N, ∑ m ∈ Finset.range N,
+        (c.entry n m + c.entry m n) / ((Gen.TsneOps.symDivisor : Nat) : K) := by
+    apply Finset.sum_congr rfl; intro n hn
+    apply Finset.sum_congr rfl; intro m hm
+    exact out_half_sum N c hw hd out hout n m (Finset.mem_range.1 hn) (Finset.mem_range.1 hm)
+  rw [this]
+  simp only [← Finset.sum_div, Finset.sum_add_distrib]
+  congr 2
+  exact Finset.sum_comm
+
+theorem list_sum_map_div {α : Type} (f : α → K) (s : K) : ∀ l : List α,
+    (l.map fun i => f i / s).sum = (l.map f).sum / s := by
+  intro l
+  induction l with
+  | nil => simp
+  | cons a l ih => rw [List.map_cons, List.sum_cons, ih, List.map_cons, List.sum_cons, add_div]
+
+theorem getD_map_div (a : Array K) (s : K) (i : Nat) : (a.map (· / s)).getD i 0 = a.getD i 0 / s := by
+  by_cases h : i < a.size
+  · simp [Array.getD, h]
+  · simp [Array.getD, h]
+
+/-- `val_P[i] /= Σ val_P`: the values then sum to one -/
+theorem normalise_total (c : Csr K) (h : c.valP.foldl (· + ·) 0 ≠ 0) :
+    c.normalise.valP.foldl (· + ·) 0 = 1 := by
+  unfold Csr.normalise
+  simp only
+  rw [array_foldl_sum (c.valP.map _)]
+  simp only [getD_map_div, Array.size_map]
+  rw [list_sum_map_div (fun i => c.valP.getD i 0), ← array_foldl_sum, div_self h]
+
+/-- … and every entry is divided by the total -/
+theorem normalise_entry (c : Csr K) (n m : Nat) :
+    c.normalise.entry n m = c.entry n m / c.valP.foldl (· + ·) 0 := by
+  rw [entry_eq_sum, entry_eq_sum]
+  unfold Csr.normalise Csr.R Csr.C Csr.V
+  simp only [getD_map_div]
+  exact sum_ite_div (fun i => c.colP.getD i 0 = m) (fun i => c.valP.getD i 0) _ _
 
 end TapkeeVerif.Tsne
